@@ -12,6 +12,7 @@ import BumpVerif.Gen.FnIter
 import BumpVerif.Gen.FnRawVec
 import BumpVerif.Gen.FnRewind
 import BumpVerif.Gen.FnVec
+import BumpVerif.Gen.FnVecDrain
 import BumpVerif.Model.Vec
 /-!
 Model-level witness search, run by `./check` when one of the equivalence theorems of `Props/GenFn*.lean` no longer
@@ -182,6 +183,24 @@ def main : IO Unit := do
     ("always", fun _ _ _ => some true), ("panic@1", fun k a b => if k == 1 then none else some (a.val == b.val)), ("alternate", fun k _ _ => some (k % 2 == 0))]
   out := add (firstDiff "Vec::dedup_by" ((vcfgs.flatMap fun c => dvecs.flatMap fun v => cbs.map fun cb => (c, v, cb)).map fun (c, v, (cbn, cb)) =>
     (vtag c v ++ s!" cb={cbn}", showM (RsM.toModel (Gen.Fn.vec_dedup_by c cb (v, w0))), showM (V.dedupBy c v cb w0)))) out
+  -- drain(range) and the destructor of the Drain it returns (after 0 or 1 calls of next)
+  let bds : List V.Bd := [.unb, .inc 0, .inc 1, .inc 3, .exc 0, .exc 2, .exc 4, .inc (2 ^ 64 - 1), .exc (2 ^ 64 - 1)]
+  let vcb := vc.flatMap fun (c, v) => bds.flatMap fun a => bds.map fun b => (c, v, a, b)
+  out := add (firstDiff "Vec::drain" (vcb.map fun (c, v, a, b) =>
+    (vtag c v ++ s!" range=({repr a}, {repr b})",
+      (match Gen.Fn.vec_drain c (a, b) (v, w0) with | (s, .ok d) => s!"ok {repr s.1} {repr d}" | (_, .panic) => "panic" | _ => "bad"),
+      (match V.drainNew c v a b with | some (v', d) => s!"ok {repr v'} {repr d}" | none => "panic")))) out
+  let showD := fun (r : V.VS × V.W × Bool) =>
+    if r.2.1.bad.isEmpty then s!"{repr r.1} evs={repr r.2.1.evs} drops={r.2.1.dropCalls} panicked={r.2.2}" else "bad"
+  -- (compared where the model records no UB step: `readRange` flags an uninitialised slot before any destructor runs, the
+  -- source only when it gets there)
+  out := add (firstDiff "Drain::drop" ((vcb.filter fun (c, v, a, b) => match V.drainNew c v a b with
+      | some (v', d) => (d.drop c v' w0).2.1.bad.isEmpty | none => false).filterMap fun (c, v, a, b) => match V.drainNew c v a b with
+    | none => none
+    | some (v', d) => some (vtag c v ++ s!" range=({repr a}, {repr b})",
+        showD (match Gen.Fn.drain_drop c d.tailStart d.tailLen (d.lo, d.hi) (v', w0) with
+          | (s, .ok _) => (s.1, s.2, false) | (s, .panic) => (s.1, s.2, true) | (s, .bad why) => (s.1, s.2.flag why, false) | (s, _) => (s.1, s.2.flag "?", false)),
+        showD (d.drop c v' w0)))) out
   out := add (firstDiff "Vec::reserve" (vci.map fun (c, v, i) =>
     (vtag c v ++ s!" additional={i}", showM (RsM.toModel (Gen.Fn.vec_reserve c i (v, w0))),
       showM (match V.rawReserve c v v.len i with | some v' => (v', w0, some ()) | none => (v, w0, none))))) out
